@@ -359,7 +359,8 @@ namespace OP2Utility::Archive
 
 		if (m_IndexTableLength > 0) {
 			m_IndexEntries.resize(m_IndexEntryCount);
-			archiveFileReader.Read(m_IndexEntries.data(), m_IndexTableLength);
+			// Read whole entries only. The section length may include trailing bytes that do not form an entry
+			archiveFileReader.Read(m_IndexEntries);
 		}
 
 		if (m_HeaderLength < m_StringTableLength + m_IndexTableLength + 24) {
